@@ -1,0 +1,28 @@
+//go:build verif
+
+package gzip
+
+import "compress/gzip"
+
+// VerifDrainPool takes every writer out of gzipWriterPool that the calling goroutine can reach (at most max)
+// and reports how many came out and whether one came out twice. The writers are not put back. Not for use
+// while handlers are running.
+func VerifDrainPool(max int) (n int, twice bool) {
+	newFn := gzipWriterPool.New
+	gzipWriterPool.New = nil
+	defer func() { gzipWriterPool.New = newFn }()
+	seen := map[*gzip.Writer]bool{}
+	for n < max {
+		x := gzipWriterPool.Get()
+		if x == nil {
+			break
+		}
+		w := x.(*gzip.Writer)
+		if seen[w] {
+			twice = true
+		}
+		seen[w] = true
+		n++
+	}
+	return n, twice
+}
